@@ -2,7 +2,7 @@
 from qlib import (AnalysisBroken, strip, isnode, walk, is_call, norm_cmp, var_ref, is_null, const_val, short, call_obj,
                   expr_key, field_name, is_this_field, atomic_op)
 from rules.common import (core_and_neg, tnode, other, cpos, npos, branches_on_call, flatten, in_subtree, loops_enclosing,
-                          need_some, returns_bool, straight_after)
+                          need_some, returns_bool, straight_after, other_loop_over)
 
 EXPLANATION = ("Flush hand-shake. R1: every log_statement call carrying a control event (Flush, InitBacktrace, FlushBacktrace, "
                "LoggerRemovalRequest; found by evaluating the MacroMetadata initialiser) sits in a retry loop that cannot be left "
@@ -258,6 +258,8 @@ def r4(ctx, facts, cfg):
     for c in flush_calls:
         loops = loops_enclosing(f, c)
         ok = False
+        if loops and loops[0]["k"] != "CXXForRangeStmt":
+            raise AnalysisBroken("_flush_and_run_active_sinks: the loop around flush_sink is not a range-for: shape not covered")
         if loops:
             lp_ = loops[0]
             over_cache = lp_["k"] == "CXXForRangeStmt" and is_this_field(strip(lp_.get("range")), "_active_sinks_cache")
@@ -279,6 +281,8 @@ def r4(ctx, facts, cfg):
     never_early = bool(rets) and all(const_val(lg.node_ast(r).get("val")) == 0 for r in rets)
     pb = l.calls(r"std::vector<quill::Sink \*.*>::push_back$")
     loops = [n for n in l.walk() if n["k"] == "CXXForRangeStmt" and field_name(strip(n.get("range"))) == "sinks"]
+    if not loops:
+        other_loop_over(l, "sinks", "_flush_and_run_active_sinks collector")
     in_loop = bool(loops) and all(in_subtree(p, loops[0]) for p in pb) and \
         not [x for x in walk(loops[0].get("body")) if x["k"] in ("BreakStmt", "ReturnStmt", "GotoStmt", "ContinueStmt") and
              not any(a["k"] == "LambdaExpr" for a in l.ancestors(x) if in_subtree(a, loops[0]))]
@@ -291,6 +295,8 @@ def r4(ctx, facts, cfg):
     fe = facts.need("quill::detail::LoggerManager::for_each_logger", cfg)
     for x in fe:
         loops = [n for n in x.walk() if n["k"] == "CXXForRangeStmt" and is_this_field(strip(n.get("range")), "_loggers")]
+        if not loops:
+            other_loop_over(x, "_loggers", "LoggerManager::for_each_logger")
         early = []
         ok = bool(loops)
         if loops:
